@@ -80,7 +80,13 @@ def verify_function(qual, timeout_ms=60000, canary=True):
     res["callee_contracts"] = sorted(getattr(ex, "called", set()))
     worst = "proved"
     for key, ob in obls.items():
-        st, info = L.check_valid(ob.hyps, ob.goal, timeout_ms=timeout_ms, fuel=ct.fuel, extra_axioms=ct.axioms)
+        # iterative deepening: most obligations need 3 rounds; only a refutation at the
+        # contract's full fuel counts as `failed`
+        for fuel in range(3, max(3, ct.fuel) + 1):
+            st, info = L.check_valid(ob.hyps, ob.goal, timeout_ms=timeout_ms, fuel=fuel, extra_axioms=ct.axioms)
+            if st == "proved":
+                break
+        info["fuel"] = fuel
         rec = {"name": ob.name, "kind": ob.kind, "line": ob.lineno, "status": st, "seconds": info.get("seconds"), "instances": info.get("instances"), "cross": info.get("cross")}
         if st == "failed":
             rec["model"] = model_summary(info["model"]) if "model" in info else None
